@@ -63,6 +63,21 @@ def instances():
     out.append(nary("hash", "HASHExpression", "blocc/builtin/builtin_hash.h", "si", P10, "ORC_HASH", slen=2, tus=B("hash"),
                     known="verif_known(KF_HASH_ZERO_BUCKETS, !A[1].isnull && (unsigned)A[1].i == 0u)"))
     out.append(nary("subraw", "SUBRAWExpression", "blocc/builtin/builtin_subraw.h", "tii", P10, slen=2, tus=B("subraw"), tier="thorough", timeout=900))
+    # further builtins: safety (C01), static type (C02), frame condition (C05) - no value oracle
+    GEN = [("mod", "MOD", ["ii", "id", "di", "dd", "in", "ni"]), ("sign", "SIGN", ["i", "d", "n"]), ("min", "MIN", ["ii", "id", "dd", "in"]), ("max", "MAX", ["ii", "di", "dd", "ni"]),
+           ("floor", "FLOOR", ["d", "i", "n"]), ("ceil", "CEIL", ["d", "i", "n"]), ("round", "ROUND", ["d", "di", "dn"]), ("pow", "POW", ["ii", "dd", "id", "in"]),
+           ("sqrt", "SQRT", ["d", "i", "n"]), ("clamp", "CLAMP", ["iii", "ddd", "idi"]), ("bool", "BOOL", ["b", "i", "d", "s", "n"]),
+           ("str", "STR", ["i", "d", "b", "s", "n"]), ("num", "NUM", ["s", "i", "d", "b", "n"]), ("isnum", "ISNUM", ["s", "i", "n"]), ("hex", "HEX", ["i", "ii", "n"]),
+           ("raw", "RAW", ["i", "ii", "s", "n"]), ("replace", "REPLACE", ["sss"]), ("tokenize", "TOKENIZE", ["ss", "ssb"]), ("b64enc", "B64ENC", ["s", "t", "n"]),
+           ("b64dec", "B64DEC", ["s", "n"]), ("typeof", "TYPEOF", ["i", "s", "n"]), ("strpos", "STRPOS", ["ssi"]), ("subraw", "SUBRAW", ["ti"]), ("hash", "HASH", ["s", "ti"])]
+    QUICKGEN = {("mod", "ii"), ("sign", "i"), ("min", "ii"), ("max", "ii"), ("floor", "d"), ("round", "d"), ("bool", "i"), ("isnum", "s"), ("hex", "i"), ("typeof", "i"), ("clamp", "iii")}
+    for n, c, kindlist in GEN:
+        for kinds in kindlist:
+            extra = ["blocc/builtin/base64.cpp"] if n.startswith("b64") else []
+            out.append(nary(n, c + "Expression", "blocc/builtin/builtin_%s.h" % n, kinds, ["C01", "C02", "C05", "C10" if n in ("str", "num", "isnum", "hex", "raw", "replace", "tokenize", "b64enc", "b64dec", "strpos", "subraw", "hash") else "C03"],
+                            tus=B(n) + extra, slen=2, tier="quick" if (n, kinds) in QUICKGEN else "thorough", timeout=600, idsuffix=".g",
+                            unwindset=["_ZN4bloc13HEXExpression3hexB5cxx11Ell.0:20"] if n == "hex" else [], short=(n != "hex"),
+                            known="verif_known(KF_GENERIC_BUILTIN_TRIAGE, false)"))
     # member methods (receiver = argument 0)
     P09 = ["C09", "C01", "C02", "C05"]
     TSTUBS = FMT_STUBS + CTX_STUBS + CONTAINER_STUBS[3:]          # tables are real here: Collection not cut
